@@ -31,7 +31,13 @@ func (api *API) mapEncode(ctx context.Context, value reflect.Value, ts TypeSetti
 		}
 	}
 
-	if serializable, ok := valueI.(SerializableJSON); ok {
+	serializable, ok := valueI.(SerializableJSON)
+	if !ok {
+		// a custom codec that is implemented on the pointer type is also used for a value that is held directly (see encode)
+		serializable, ok = addressOf(value).(SerializableJSON)
+	}
+
+	if ok {
 		ele, err = serializable.EncodeJSON()
 		if err != nil {
 			return nil, ierrors.Wrap(err, "object failed to serialize itself")
